@@ -32,7 +32,8 @@ Definition x_fs_table := Optimize.fs_table.
 Definition x_opt_ok := Optimize.opt_ok_b.
 Definition x_emit_all (g : Syntax.grammar) (ast inline : bool) (undef : list bool) : list (option (list Emit.tok)) :=
   map (option_map (fun c => Emit.squash (Emit.flat c)))
-      (Emit.emit_all g ast inline (Analyses.asu_rule g) (fun r => nth r undef false)).
+      (let asul := map (Analyses.asu_rule g) (seq 0 (length g)) in
+       Emit.emit_all g ast inline (fun r => nth r asul false) (fun r => nth r undef false)).
 Definition x_good_grammar_b := WF.good_grammar_b.
 Definition x_swok_b (g : Syntax.grammar) (inline : bool) : bool :=
   SkipCheck.grammar_swok_b g (fun r => nth r (Analyses.inline_table inline g) false) (S (Analyses.gsize g) * S (length g)).
